@@ -80,9 +80,41 @@ def run(ctx):
     srcs = ndet.sources(F)
     R.floor("ndet_sources", len(srcs), 20)
     seen_keys = {}
+    # A source is keyed by the top-level function it belongs to.  A *private helper* (extract-method) belongs to the functions
+    # that call it: its body is read inside each caller's inlined view (so a clock value handed to the helper as an argument is
+    # followed into it), and closures nested in it are keyed by those callers.
+    import re as _re
+    from facts import is_private_helper
+    def root_of(f):
+        r = F.fns.get(f.j.get("root")) if f.j.get("root") else None
+        return r if r is not None else f
+    hosts = {}                       # private helper name -> {host root name}
+    units, covered = [], set()
+    for f in F.body_fns():
+        rt = root_of(f)
+        if is_private_helper(rt):
+            continue
+        v = F.inlined(f, light=False)
+        for nm in v.j.get("inlined", []):
+            hosts.setdefault(nm, set()).add(_re.sub(r"(::\{closure#\d+\})+$", "", f.name))
+        for c in v.calls():
+            if not v.is_cleanup(c.bb) and ndet.SRC_RE.search(c.target_path or ""):
+                pv = v.prov(c.bb)
+                covered.add(pv)
+                units.append((_re.sub(r"(::\{closure#\d+\})+$", "", f.name), v, c, pv))
     for (f, c) in srcs:
-        import re as _re
-        key = "%s|%s" % (_re.sub(r"(::\{closure#\d+\})+$", "", f.name), (c.target_path or "").split("::")[-2] + "::" + (c.target_path or "").split("::")[-1])
+        if (f.id, c.bb) in covered:
+            continue
+        rt = root_of(f)
+        hs = sorted(hosts.get(rt.name, ())) if is_private_helper(rt) else []
+        for h in (hs or [_re.sub(r"(::\{closure#\d+\})+$", "", f.name)]):
+            units.append((h, f, c, (f.id, c.bb)))
+    counted = set()
+    for (root_name, f, c, pv) in units:
+        key = "%s|%s" % (root_name, (c.target_path or "").split("::")[-2] + "::" + (c.target_path or "").split("::")[-1])
+        if (key, pv) in counted:
+            continue
+        counted.add((key, pv))
         seen_keys[key] = seen_keys.get(key, 0) + 1
         row = nd_tbl.get(key)
         if row is None:
